@@ -161,26 +161,20 @@ Theorem C20_full_dedup_ops_prefix : forall ids,
 Proof. exact dedup_ops_prefix. Qed.
 Print Assumptions C20_full_dedup_ops_prefix.
 
-Theorem C20_partial_dedup_ops_nodup : forall ids, guard_F07a ids = true ->
-  NoDup (map method_name (dedup_ops ids)) /\ dedup_ops (dedup_ops ids) = dedup_ops ids.
-Proof. exact dedup_ops_nodup_partial. Qed.
-Print Assumptions C20_partial_dedup_ops_nodup.
+Theorem C20_full_dedup_ops_nodup : forall ids, NoDup (map method_name (dedup_ops ids)).
+Proof. exact dedup_ops_nodup. Qed.
+Print Assumptions C20_full_dedup_ops_nodup.
 
-Theorem C20_guard_F07a_nonvacuous : guard_F07a w_ops_ok = true /\ dedup_ops w_ops_ok <> w_ops_ok.
-Proof. exact guard_F07a_nonvacuous. Qed.
-Print Assumptions C20_guard_F07a_nonvacuous.
+Theorem C20_full_dedup_ops_idempotent : forall ids, dedup_ops (dedup_ops ids) = dedup_ops ids.
+Proof. exact dedup_ops_idempotent. Qed.
+Print Assumptions C20_full_dedup_ops_idempotent.
 
-Theorem C20_partial_dedup_ops_idempotent : forall ids,
-  NoDup (map method_name (dedup_ops ids)) -> dedup_ops (dedup_ops ids) = dedup_ops ids.
-Proof. exact dedup_ops_idempotent_partial. Qed.
-Print Assumptions C20_partial_dedup_ops_idempotent.
-
-Theorem C20_refuted_F07a :
-  guard_F07a w_F07a = false
-  /\ nodupb (map method_name (dedup_ops w_F07a)) = false
-  /\ dedup_ops (dedup_ops w_F07a) <> dedup_ops w_F07a.
-Proof. exact refuted_F07a. Qed.
-Print Assumptions C20_refuted_F07a.
+Example C20_fixed_F07a :
+  dedup_ops w_F07a = [[102;111;111]; [102;111;111;95;50]; [102;111;111;95;50;95;50]]
+  /\ nodupb (map method_name (dedup_ops w_F07a)) = true
+  /\ dedup_ops (dedup_ops w_F07a) = dedup_ops w_F07a.
+Proof. exact fixed_F07a. Qed.
+Print Assumptions C20_fixed_F07a.
 
 (* ---------------------------------------------------------------- namespaces: endpoint parameters *)
 Theorem C20_partial_params : forall names body vars,
